@@ -230,6 +230,16 @@ CLAIMS["C14"]["note"] = "Strings <= 8 bytes without NUL; dispatch of subscriptio
 CLAIMS["C09"]["text"] += " The publication-ready event (through the real broadcast / adapter path) marks exactly the matching registration Registered with the event's fields."
 CLAIMS["C12"]["text"] += " A re-acquired (cached) log mapping is the same mapping and stops its linger countdown; an image announced for an awaiting or unknown subscription is ignored (no callback, nothing mapped, no bookkeeping)."
 
+CLAIMS["C09"]["text"] = CLAIMS["C09"]["text"].replace("PARTIAL. ", "") + " Ready events: a counter / subscription / publication / exclusive publication whose ready event arrived is found as a usable resource carrying the driver's ids, repeated lookups (also after a DUPLICATED ready event) yield the same object while it is held, callbacks fire with the registration's id."
+CLAIMS["C09"]["note"] = ("Struct-literal conductor, real DriverProxy/ring, HashMaps with a fixed RandomState; Arc::drop_slow is stubbed by a function that "
+    "asserts false - i.e. the solver proves no handle's last reference is dropped inside a harness (handles are forgotten), which cuts "
+    "the destructor glue of ClientConductor out of symex. NOT decided: release-by-drop of a handle (Drop -> conductor mutex), release "
+    "of a counter while its handle is alive, destinations, mixed kinds in one history, client-close on conductor drop. Histories of "
+    "length <= 4, one resource at a time, ids concrete, mmap replaced by a heap LogBuffers stub.")
+CLAIMS["C10"]["text"] += " With a live counter handle: the handle is closed, the unavailable-counter callback fires exactly once, registrations are dropped. A reclaimed client-heartbeat counter (driver timed the client out, event lost) closes the client at the next keep-alive check."
+CLAIMS["C10"]["note"] = CLAIMS["C10"]["note"].replace("closes with live handles or images", "closes with live subscription / publication handles or images (do not fit)")
+CLAIMS["C12"]["note"] = CLAIMS["C12"]["note"].replace("image available / unavailable notifications (need a live subscription handle, see C09 note)", "image available / unavailable notifications on a LIVE subscription (Image::create + the copy-on-write image vector run out of memory at 24 GB)")
+
 NOT_YET = "check not built yet in this session (planned in DESIGN.md section 4); no claim is made"
 NA = {}
 
